@@ -119,8 +119,8 @@ Value& MemberINSERTExpression::value(Context& ctx) const
     }
     else
     {
-      /* type mixing */
-      switch (rv_type.major())
+      /* type mixing, for the elements of a table of one dimension only */
+      switch (rv_type.level() == 1 ? rv_type.major() : Type::NO_TYPE)
       {
       case Type::INTEGER:
         if (a1_type == Type::NUMERIC)
